@@ -344,6 +344,42 @@ def rule_dvalue(program, ctx):
             ctx.bad(finding_at(P, rid, n, "SQL: d values compared with `in` (substring/container test)"))
 
 
+def rule_delete_target(program, ctx, prop=P, rid="C09.target"):
+    ctx.rule(
+        rid,
+        "what the supersede loop removes is an *older stored* version: in WriterThread._post_save every `_delete_event(txn, X, …)` of the replaceable branch is given the record "
+        "decoded from the scanned id (`decode_event(get_event_data(txn, event_id))`), bound once - never the event just written (a tie-break that assigns `candidate = event` "
+        "deletes the newest version: role assignments, profiles and lists silently revert to the earlier one)",
+        floor=1,
+    )
+    fn = program.func("nostr_relay.storage.kv:WriterThread._post_save")
+    ev = fn.args.args[2].arg if len(fn.args.args) > 2 else "event"
+    n = 0
+    for c in ast.walk(fn):
+        if isinstance(c, ast.Call) and call_name(c).endswith("_delete_event") and len(c.args) >= 2:
+            n += 1
+            a = c.args[1]
+            if isinstance(a, ast.Name):
+                b = [s_ for s_ in stores_of(fn, a.id)]
+
+                def from_record(s_, name=a.id):
+                    vals = [s_.value] if isinstance(s_, ast.Assign) else [x.value for x in ast.walk(s_) if isinstance(x, ast.NamedExpr) and isinstance(x.target, ast.Name) and x.target.id == name]
+                    return bool(vals) and all(any(isinstance(x, ast.Call) and call_name(x) in ("decode_event", "get_event_data") for x in ast.walk(v)) for v in vals)
+
+                src_ok = all(from_record(s_) for s_ in b) and b
+                if a.id == ev or not src_ok:
+                    bad = next((s_ for s_ in b if not from_record(s_)), c)
+                    ctx.bad(finding_at(prop, rid, bad, f"_delete_event can be given `{ast.unparse(bad)[:50]}`: something other than the stored record decoded from the scanned id - the event "
+                                       "just written (the newest version) can be the one removed"))
+                else:
+                    ctx.ok(rid, c, f"_delete_event(txn, {a.id}) with {a.id} decoded from the scanned id")
+            else:
+                ok2 = any(isinstance(x, ast.Call) and call_name(x) in ("decode_event",) for x in ast.walk(a))
+                ctx.ok(rid, c, "deletes the decoded record") if ok2 else ctx.bad(finding_at(prop, rid, c, f"_delete_event is given `{ast.unparse(a)[:40]}`"))
+    if not n:
+        raise AnalysisError("_post_save: no _delete_event call")
+
+
 def rule_dverbatim(program, ctx, prop=P, rid="C09.dverbatim"):
     ctx.rule(
         rid,
@@ -379,12 +415,19 @@ def run(program, ctx):
     rule_frame_kv(program, ctx)
     rule_dvalue(program, ctx)
     rule_dverbatim(program, ctx)
+    rule_delete_target(program, ctx)
     from . import c10
 
     c10.rule_injective(program, ctx, prop=P, rid="C09.index")
     c07.rule_kvregion(program, ctx, prop=P, rid="C09.kvregion")
     # kinds 0/3 are replaced in DBStorage.post_save under `if changed`: a recipe override that loses `changed` disables it
     c07.rule_overrides(program, ctx, prop=P, rid="C09.overrides")
+    from . import c04 as _c04, c06 as _c06
+
+    # pre_save deletes the superseded versions before the INSERT OR IGNORE: a constraint that skips the insert leaves no version at all
+    _c06.rule_schema(program, ctx, prop=P, rid="C09.schema")
+    # the d value is compared as stored: the serializer of the tags column must not rewrite it
+    _c04.rule_encoder(program, ctx, prop=P, rid="C09.encoder")
     ctx.not_decided += [
         "arrival-order outcomes and equal timestamps as behaviour",
         "that an incoming event older than the stored newest version is itself not kept (both backends store it)",
